@@ -95,7 +95,9 @@ type Scenario struct {
 	Faults         []Fault
 	Ticks          []time.Duration     // TICK events available, in order
 	TickGate       func(w *World) bool // nil or: TICK is only enabled when this holds
-	SlowBackends   bool
+	BusyTicks      bool                // the clock advances while the proxy is busy: a TICK is followed at once by the next ready event (epoll_wait does
+	// not return "no events") whenever there is one
+	SlowBackends bool
 	// exploration
 	Bound       int      // max deviations; <0: unbounded
 	FreeKinds   []string // choice kinds ("sched","intn","order","write") whose alternatives cost no deviation (always enumerated)
@@ -810,6 +812,9 @@ func (w *World) wait() (fd int, mask uint32, n int, stop bool) {
 			w.TickUnread = append(w.TickUnread, unread)
 			vsys.Advance(w.Sc.Ticks[w.Ticks])
 			w.Ticks++
+			if w.Sc.BusyTicks {
+				continue // time passed while events kept arriving: the next event is returned by this same epoll_wait
+			}
 			return 0, 0, 0, false
 		}
 	}
